@@ -212,6 +212,12 @@ def invalid(jp, rec, R, spec):
             cases.append(("lone-high-surrogate", lit(q, "\\u%04x\\udc0" % hi)))
             cases.append(("lone-high-surrogate", lit(q, "\\u%04x\\\\udc00" % hi)))
             cases.append(("lone-high-surrogate", lit(q, "\\u%04xudc00" % hi)))
+            # whatever the next two characters are (other than backslash + u), four hex digits after them do not make a pair
+            for c1 in ["\\", "u", "n", "-", "x", " ", "U", "/", "d", "t"]:
+                for c2 in ["\\", "u", "n", "-", "x", " ", "U", "/", "d", "t"]:
+                    if (c1, c2) != ("\\", "u"):
+                        cases.append(("lone-high-surrogate", lit(q, "\\u%04x%s%sDE00" % (hi, c1, c2))))
+                        cases.append(("lone-high-surrogate", lit(q, "a\\u%04X%s%sdc00z" % (hi, c1, c2))))
         for lo in [0xDC00, 0xDE00, 0xDFFF]:
             cases.append(("lone-low-surrogate", lit(q, "\\u%04x" % lo)))
             cases.append(("lone-low-surrogate", lit(q, "a\\u%04Xb" % lo)))
